@@ -36,6 +36,7 @@ namespace Givaro {
 
     Rational& Rational::operator += (const Rational& r)
     {
+        if (&r == this) return *this += Rational(r); // r.num, r.den are read after num is written
         if (isZero(r)) return *this ;
         if (isZero(*this)) {
             num = r.num;
@@ -99,6 +100,7 @@ namespace Givaro {
 
     Rational& Rational::operator -= (const Rational& r)
     {
+        if (&r == this) return *this -= Rational(r); // r.num, r.den are read after num is written
         if (isZero(r)) return *this ;
         if (isZero(*this)) {
             num = -r.num;
